@@ -155,6 +155,12 @@ func execRouter(in J) J {
 		}
 		return J{"routes": rs}
 	}
+	switch op, _ := in["op"].(string); op {
+	case "interleave":
+		return execInterleave(in)
+	case "stress":
+		return execStress(in)
+	}
 	method, _ := in["method"].(string)
 	target, _ := in["target"].(string)
 	body, _ := in["body"].(string)
@@ -404,6 +410,62 @@ func genRouter(r *rng, n int, tier string, emit func(J)) {
 			}
 		}
 	}
+	// (D) "param-static": a path parameter spelled like a static segment of the route table (and as x%2F<static>: the decoded path
+	//     then ENDS in /<static> while chi still sees one segment).  A gate that lets requests through by what their path looks like
+	//     (a suffix, a prefix, a segment) cannot tell the static segment of a read endpoint from the value of a parameter of a write
+	//     endpoint.  The statics are read off the router of THIS run (chi.Walk), plus a few names such exemptions tend to carry.
+	//     Write routes: every parameter x every static x both spellings with the route's own method, and the LAST parameter also with
+	//     the other write-ish methods; read routes: every parameter x every static of the table, own method.  Thorough: all nine methods.
+	statics := staticSegments(routes)
+	for _, k := range routes {
+		segs0 := strings.Split(strings.TrimPrefix(k.Pattern, "/"), "/")
+		isWrite := !safeMethod(k.Method)
+		last := -1
+		for i, sg := range segs0 {
+			if strings.HasPrefix(sg, "{") && strings.HasSuffix(sg, "}") {
+				last = i
+			}
+		}
+		for i, sg := range segs0 {
+			if !(strings.HasPrefix(sg, "{") && strings.HasSuffix(sg, "}")) {
+				continue
+			}
+			vals := statics.table
+			if isWrite {
+				vals = append(append([]string{}, statics.table...), statics.extra...)
+			}
+			for _, st := range vals {
+				spellings := []string{st}
+				if isWrite {
+					spellings = append(spellings, "x%2F"+st)
+				}
+				for _, sp := range spellings {
+					ms := []string{k.Method}
+					if tier == "thorough" {
+						ms = chiMethods
+					} else if isWrite && i == last && i == len(segs0)-1 {
+						ms = []string{k.Method, "POST", "PUT", "PATCH", "DELETE"}
+					}
+					seenM := map[string]bool{}
+					for _, m := range ms {
+						if seenM[m] {
+							continue
+						}
+						seenM[m] = true
+						segs := instantiate(k.Pattern, r, "ledger0")
+						segs[i] = sp
+						bk := bodyFor(k.Pattern, r, false)
+						in := J{"op": "req", "method": m, "target": "/" + strings.Join(segs, "/"), "headers": []any{}, "body": bodies[bk],
+							"bodykind": bk, "missing": false, "base": J{"pattern": k.Pattern}, "mut": []any{"param-static"}}
+						finishReq(in)
+						emit(in)
+					}
+				}
+			}
+		}
+	}
+	// (E) several requests at once on ONE read-only router (harness/router_conc.go)
+	genRouterConcurrent(r, tier, routes, emit)
 	// paths outside every registered pattern
 	for _, t := range []string{"/", "", "*", "/api", "/api/ledger", "/api/ledger/", "/api/ledgerx/v2/ledger0/transactions", "/v2/ledger0/transactions",
 		"/ledger0/transactions", "/api/ledger/v2", "/api/ledger/v2/", "/api/ledger/v2x/transactions", "/api/ledger/v2/ledger0/nope",
@@ -417,6 +479,32 @@ func genRouter(r *rng, n int, tier string, emit func(J)) {
 			emit(q)
 		}
 	}
+}
+
+func safeMethod(m string) bool { return m == "GET" || m == "HEAD" || m == "OPTIONS" }
+
+type staticSet struct{ table, extra []string }
+
+// staticSegments: every static segment of the registered patterns, and a few names that are not (yet) in the table
+func staticSegments(routes []routeKey) staticSet {
+	seen := map[string]bool{}
+	var out staticSet
+	for _, k := range routes {
+		for _, sg := range strings.Split(k.Pattern, "/") {
+			if sg == "" || strings.HasPrefix(sg, "{") || seen[sg] {
+				continue
+			}
+			seen[sg] = true
+			out.table = append(out.table, sg)
+		}
+	}
+	sort.Strings(out.table)
+	for _, sg := range []string{"_search", "_query", "_count", "_validate", "_export", "search", "query", "health", "metrics", "docs"} {
+		if !seen[sg] {
+			out.extra = append(out.extra, sg)
+		}
+	}
+	return out
 }
 
 func emitOne(r *rng, emit func(J), pattern, method string, mode string) {
